@@ -119,7 +119,7 @@ pub fn run_pool_range(ctx: &Ctx, range: std::ops::Range<usize>, budget_s: u64) -
                     let status = child.wait();
                     if let Ok(s) = t.join() { se = s; }
                     match so.lines().last().and_then(|l| serde_json::from_str::<ItemResult>(l).ok()) {
-                        Some(mut r) => { if let Some(m) = r.machinery_error.as_mut() { let tail: String = se.chars().rev().take(1200).collect::<String>().chars().rev().collect(); m.push_str(" | stderr: "); m.push_str(&tail); } res = r }
+                        Some(mut r) => { if let Some(m) = r.machinery_error.as_mut() { let tail: String = se.chars().rev().take(4000).collect::<String>().chars().rev().collect(); m.push_str(" | stderr: "); m.push_str(&tail); } res = r }
                         None => res.machinery_error = Some(format!("item {} produced no result (status {:?}); stderr: {}", idx, status, se.chars().rev().take(1500).collect::<String>().chars().rev().collect::<String>())),
                     }
                 }
@@ -221,7 +221,7 @@ pub fn finish(ctx: &Ctx, mut r: ItemResult, rep: Report, wall_s: f64) -> i32 {
     });
     let _ = std::fs::create_dir_all("/verif/evidence");
     if let Some(e) = &r.machinery_error {
-        eprintln!("MACHINERY ERROR ({}): {}", ctx.prop, e.chars().take(1500).collect::<String>());
+        eprintln!("MACHINERY ERROR ({}): {}", ctx.prop, e.chars().take(6000).collect::<String>());
         // no evidence is written for a run that did not complete: it would describe nothing
         return 2;
     }
